@@ -213,11 +213,16 @@ def ensureDecisionPreFix (db : DB) (h : Handle) : Ensure :=
     | none => .rebuild
     | some s => if s = h.version then .noop else .rebuild
 
+/-- `clearFastIndex`'s chunk commit: every 'F' record deleted. -/
+def clearW (d : DB) : DB := { d with fast := [] }
+
+/-- `rebuildFastIndex`'s final commit: one entry per leaf of the loaded root + the stamp. -/
+def fillW (h : Handle) (d : DB) : DB := { d with fast := h.work, stamp := some h.version }
+
 /-- the batch Writes of `rebuildFastIndex`, in order: the clear chunk (only when
 there is something to clear), then all entries of the loaded root + the stamp. -/
 def rebuildWrites (db : DB) (h : Handle) : List (DB → DB) :=
-  (if db.fast.isEmpty then [] else [fun d => { d with fast := [] }]) ++
-  [fun d => { d with fast := h.work, stamp := some h.version }]
+  (if db.fast.isEmpty then [] else [clearW]) ++ [fillW h]
 
 def applyWrites (db : DB) (ws : List (DB → DB)) : DB := ws.foldl (fun d w => w d) db
 
